@@ -284,8 +284,10 @@ def single_edits(signed, rng, limit=None):
                 if "ab" * 32 not in v:
                     edits.append((path, "add_member", ("ab" * 32, v[sorted(v)[0]])))
             elif path and path[-1] in ("byproducts", "environment", "keyval"):
-                if "zz-added" not in v:
-                    edits.append((path, "add_member", ("zz-added", "x")))
+                # also names that look like the model's own field names in another spelling
+                nm = rng.choice(["zz-added", "return_value", "Stdout", "std-err", "keyid_hash_algorithms", "public "])
+                if nm not in v:
+                    edits.append((path, "add_member", (nm, "x")))
             if v:
                 edits.append((path, "del_key", rng.choice(sorted(v))))
                 edits.append((path, "rename_key", rng.choice(sorted(v))))
@@ -389,3 +391,41 @@ def unknown_scheme_keys(binpath):
         if "ok" in p:
             out.append({"pub": p["ok"]["pub"], "keyid": p["ok"]["keyid"]})
     return out
+
+
+def colliding_descriptions(W, ka, kb, budget=400000):
+    """two descriptions (public-key JSON incl. `keyid`) of the DIFFERENT keys ka and kb whose identifiers share their first
+    eight hex digits; found by a search over the hash-algorithm list, which is part of a key's description.
+    Returns (pub_a, id_a, pub_b, id_b) or None."""
+    import hashlib
+    import jsongen
+
+    def template(k):
+        p = W.pub(k)
+        d = {"keytype": p["keytype"], "scheme": p["scheme"], "keyval": {"public": p["keyval"]["public"]}, "keyid_hash_algorithms": ["sha256", "@TAG@"]}
+        return jsongen.olpc_canon(d)
+    ta, tb = template(ka), template(kb)
+    seen = {}
+    for i in range(budget):
+        ia = hashlib.sha256(ta.replace("@TAG@", f"a{i}").encode()).hexdigest()
+        seen[ia[:8]] = (i, ia)
+        ib = hashlib.sha256(tb.replace("@TAG@", f"b{i}").encode()).hexdigest()
+        if ib[:8] in seen:
+            i_a, id_a = seen[ib[:8]]
+            pub_a = dict(W.pub(ka), keyid=id_a, keyid_hash_algorithms=["sha256", f"a{i_a}"])
+            pub_b = dict(W.pub(kb), keyid=ib, keyid_hash_algorithms=["sha256", f"b{i}"])
+            return pub_a, id_a, pub_b, ib
+    return None
+
+
+def twin_links(name="twin"):
+    """pairs (A, B) of unequal link documents that coincide under a canonical writer which fails to escape a quote or a
+    backslash in a member NAME (artifact path, environment name, by-product name) or in a value"""
+    ee, d11 = "ee" * 32, "11" * 32
+    base = lambda **kw: dict(mk_link(name, {"a": digest(1)}, {"b": digest(2)}, ["c"], {"stdout": "o", "return-value": 0}, {"E": "v"}), **kw)
+    return [
+        (base(products={'foo":{"sha256":"' + ee + '"},"notes.txt': {"sha256": d11}}), base(products={"foo": {"sha256": ee}, "notes.txt": {"sha256": d11}})),
+        (base(environment={'K":"v","L': "w"}), base(environment={"K": "v", "L": "w"})),
+        (base(materials={'m\\":{"sha256":"' + ee + '"},"n': {"sha256": d11}}), base(materials={"m\\": {"sha256": ee}, "n": {"sha256": d11}})),
+        (base(command=['a","b']), base(command=["a", "b"])),
+    ]
